@@ -353,7 +353,7 @@ func c11CheckImage(run *c11Run, k int) (string, string, string) {
 
 func runC11(c *vx.Ctx) {
 	core.VScaleParams(core.VR1)
-	c.Rule = "every prefix of the global write log (puts, deletes, atomic batch commits on the prime, region and zone databases) recorded while a node follows a history of foreign blocks incl. region/prime-order blocks and a depth-2 reorganisation; outcome class = next interrupted write kind x verdict"
+	c.Rule = "every prefix of the global write log (puts, deletes, atomic batch commits on the prime, region and zone databases) recorded while a node follows a history of foreign blocks incl. region/prime-order blocks and a depth-2 reorganisation; outcome class = next interrupted write kind x verdict; after every restart the whole state of the reported head is walked (account trie, storage tries, code)"
 	c.Assume("process crash: write order preserved, committed batches atomic (engine internals, torn writes inside a batch and power-loss reordering are not explored)")
 	c.Assume("scaled protocol constants: " + fmt.Sprint(core.VScaled))
 	p := c.Part("crash-prefixes")
